@@ -228,6 +228,131 @@ def is_wild(k):
     return "*" in k or "?" in k
 
 
+
+# ------------------------------------------------------------------ YAML documents with anchors, aliases and merge keys
+class Alias:
+    def __init__(self, name):
+        self.name = name
+
+
+class Anchored:
+    def __init__(self, name, value):
+        self.name, self.value = name, value
+
+
+MERGE = object()      # key of a `<<` entry
+
+
+def yaml_flow(v):
+    if isinstance(v, Alias):
+        return "*" + v.name + " "
+    if isinstance(v, Anchored):
+        return "&" + v.name + " " + yaml_flow(v.value)
+    if isinstance(v, dict):
+        return "{" + ", ".join(("<<" if k is MERGE else json.dumps(k)) + ": " + yaml_flow(x) for k, x in v.items()) + "}"
+    if isinstance(v, list):
+        return "[" + ", ".join(yaml_flow(x) for x in v) + "]"
+    return json.dumps(v)
+
+
+def sub_maps(v, acc):
+    if isinstance(v, dict):
+        acc.append(v)
+        for x in v.values():
+            sub_maps(x, acc)
+    elif isinstance(v, list):
+        for x in v:
+            sub_maps(x, acc)
+    return acc
+
+
+def gen_yaml_doc(rng):
+    """text of a document {x: &x map, s: &s seq, v: &v scalar, a: A, b: B}: A and B a generated pair in which values are
+    replaced by aliases (preferably where the other operand has a container at the same key), maps get `<<` entries,
+    and a value of A carries an anchor of its own that later positions of A / B refer to"""
+    a, b = gen_pair(rng)
+    a, b = json.loads(json.dumps(a)), json.loads(json.dumps(b))
+    bx, bs, bv = gen_map(rng, 1), [gen_val(rng, 2) for _ in range(rng.choice([0, 1, 2, 3]))], rng.choice(SCALARS)
+    for side, other in ((a, b), (b, a)):
+        maps = sub_maps(side, [])
+        omaps = {id(m): m for m in sub_maps(other, [])}
+        for m in maps:
+            for k in list(m):
+                r = rng.random()
+                if r < 0.12:
+                    m[k] = Alias(rng.choice("xsv"))
+                elif r < 0.2 and isinstance(m[k], dict) and not isinstance(m[k], Alias):
+                    pass
+            if rng.random() < 0.15:
+                m[MERGE] = Alias("x") if rng.random() < 0.7 else [Alias("x"), Alias("x")]
+    # an alias exactly where the other operand has a container
+    for side, other, prob in ((a, b, 0.7), (b, a, 0.4)):
+        common = [k for k in side if k in other and isinstance(other[k], (dict, list)) and k is not MERGE]
+        if common and rng.random() < prob:
+            k = rng.choice(common)
+            if isinstance(other[k], dict):
+                if isinstance(side[k], dict) and not any(isinstance(x, Alias) or kk is MERGE for kk, x in side[k].items()) and rng.random() < 0.6:
+                    bx = json.loads(json.dumps(side[k], default=lambda o: None))
+                side[k] = Alias("x")
+            else:
+                side[k] = Alias("s")
+    # an anchor inside a
+    ks = [k for k in a if k is not MERGE and not isinstance(a[k], Alias)]
+    if ks and rng.random() < 0.5:
+        k0 = ks[0]
+        if not contains_special(a[k0]):
+            a[k0] = Anchored("y", a[k0])
+            later = [k for k in ks[1:]]
+            if later and rng.random() < 0.6:
+                a[rng.choice(later)] = Alias("y")
+            kb = [k for k in b if k is not MERGE]
+            if kb and rng.random() < 0.6:
+                b[rng.choice(kb)] = Alias("y")
+    return "x: &x %s\ns: &s %s\nv: &v %s\na: %s\nb: %s\n" % (yaml_flow(bx), yaml_flow(bs), yaml_flow(bv), yaml_flow(a), yaml_flow(b))
+
+
+def contains_special(v):
+    if isinstance(v, (Alias, Anchored)):
+        return True
+    if isinstance(v, dict):
+        return any(k is MERGE or contains_special(x) for k, x in v.items())
+    if isinstance(v, list):
+        return any(contains_special(x) for x in v)
+    return False
+
+
+YAML_FIXED = [
+    "base: &x {k: 1}\na: {m: *x }\nb: {m: {k: 2, j: 3}}\n",
+    "base: &x {k: null}\na: {m: *x }\nb: {m: {k: 2}}\n",
+    "s: &s [1, null]\na: {q: *s }\nb: {q: [7, 8, 9]}\n",
+    "base: &x {k: 1}\na: {m: {<<: *x , z: 1}}\nb: {m: {k: 2, j: 3}}\n",
+    "base: &x {k: {d: 1}}\na: {m: {<<: *x }}\nb: {m: {k: {d: 2, e: 3}}}\n",
+    "a: {p: &y {k: 1}, m: *y }\nb: {m: {k: 2, j: 3}, p: {j: 4}}\n",
+    "base: &x {k: 1}\na: {m: {k: 0}}\nb: {m: *x , n: {<<: *x }}\n",
+    "base: &x {k: [1, {u: 1}]}\na: {m: *x }\nb: {m: {k: [5, {w: 2}, 6]}}\n",
+]
+
+
+def impl_yaml(reqs):
+    rs = [{"op": "eval", "expr": e, "input": t, "in": "yaml", "out": "yaml"} for e, t in reqs]
+    out = []
+    for r in vlib.yqh_parallel(rs):
+        if r is None or r.get("crash") is not None:
+            out.append(("CRASH", b""))
+        elif r.get("panic"):
+            out.append(("PANIC", b""))
+        elif r.get("timeout"):
+            out.append(("TIMEOUT", b""))
+        elif r.get("err"):
+            out.append(("ERR", b""))
+        else:
+            out.append(("OK", vlib.b64d(r["out_b64"])))
+    return out
+
+
+YAML_PROBES = ["(.a *%s .b) as $r | .", "[.a *%s .b, .a *%s .b] as $r | .", "(.a *%s .b | (.. | select(kind == \"scalar\")) |= \"Z\") as $r | ."]
+
+
 # ------------------------------------------------------------------ the check
 def run(chk):
     thorough = chk.tier == "thorough"
@@ -397,6 +522,34 @@ def run(chk):
             violate({"kind": "reduce", "expr": e, "docs": ds, "impl": rout[i].decode("utf-8", "replace"), "expect": ok_bytes(folded).decode("utf-8", "replace")},
                     "multi-document reduce with `*%s` differs from folding the implementation's own binary merge" % F)
 
+    # ---- YAML documents with anchors / aliases / merge keys inside both operands: the whole document reads the same afterwards
+    nyd = 1500 if thorough else 90
+    ydocs = list(YAML_FIXED) + [gen_yaml_doc(rng) for _ in range(nyd)]
+    base_out = impl_yaml([(".", t) for t in ydocs])
+    yreqs, ymeta = [], []
+    for t, (st, ref) in zip(ydocs, base_out):
+        if st != "OK":
+            chk.count(("yaml-unreadable", t), nontrivial=False)
+            continue
+        for fl in range(16):
+            F = flag_text(fl)
+            for pr in YAML_PROBES:
+                e = pr.replace("%s", F)
+                yreqs.append((e, t))
+                ymeta.append((e, t, ref))
+    yout = impl_yaml(yreqs)
+    ystat = {"documents": len(ydocs), "readable": sum(1 for st, _ in base_out if st == "OK"), "probes": len(yreqs), "merge_ok": 0, "merge_err": 0}
+    for (e, t, ref), (st, got) in zip(ymeta, yout):
+        chk.count(("yaml", e, t), nontrivial=st == "OK", sample={"expr": e, "yaml": t} if (len(t) < 160 and st == "OK" and "*" in t.split("\na:")[-1]) else None)
+        if st == "ERR":
+            ystat["merge_err"] += 1          # the merge itself is rejected (e.g. `+` onto a map): nothing was printed, nothing to compare
+            continue
+        ystat["merge_ok"] += 1
+        if st != "OK" or got != ref:
+            violate({"kind": "yaml", "expr": e, "yaml": t, "impl": st + "\n" + got.decode("utf-8", "replace"), "expect": "OK\n" + ref.decode("utf-8", "replace")},
+                    "the document (anchors, aliases, merge keys) reads differently after evaluating %s" % e)
+    chk.extra["yaml_alias_documents"] = ystat
+
     # ---- recorded findings: exact inputs, still reproducing?
     probes = impl_batch([(".a *+d .b", pair_doc({"k": [1, 2]}, {"k": [3]}), False),
                          (".a *+d .b", pair_doc({}, {"k": [[1]]}), False),
@@ -439,7 +592,7 @@ def run(chk):
         rule="seeded pairs of nested JSON maps (b derived from a by kind-preserving edits, new / dropped / reordered keys, resized sequences; 30% with kind "
              "conflicts; 20% independent; hand-written corner cases) x all 16 subsets of {+ d ? n}: `.a *F .b` vs Spec/MergeSpec.v merge (open region counted and "
              "skipped); operands-untouched / repeatability / overwrite-the-result probes on every case; key order, `?`, `n` oracles; x*{} / {}*x / x*x laws; "
-             "document sequences x 16 flag sets through `. as $i ireduce ({}; . *F $i)` (all-at-once evaluator) vs merge_all and vs the implementation's own "
+             "YAML documents with anchors / aliases / `<<` entries inside both operands x 16 flag sets: the whole document printed after the merge (also after repeating it and after overwriting its result) equals the document; document sequences x 16 flag sets through `. as $i ireduce ({}; . *F $i)` (all-at-once evaluator) vs merge_all and vs the implementation's own "
              "iterated binary merge; flat maps whose keys contain * and ? vs the literal merge (`*` and `*=`); non-trivial = defined-region merge whose result differs from a",
         trusted=vlib.COMMON_TRUSTED + ["Spec/MergeSpec.v hand-written from operator_multiply.go (mergeObjects / applyAssignment), operator_assign.go, operator_add.go, "
                                        "operator_traverse_path.go; it is the reference the theorems are about"],
@@ -455,6 +608,9 @@ def replay(rp):
     if k == "reduce":
         got = impl_batch([(rp["expr"], "\n".join(json.dumps(d) for d in rp["docs"]), True)])[0]
         return got.decode("utf-8", "replace") == rp["expect"]
+    if k == "yaml":
+        st, got = impl_yaml([(rp["expr"], rp["yaml"])])[0]
+        return st + "\n" + got.decode("utf-8", "replace") == rp["expect"]
     if k in ("keyorder", "onlynew"):
         a, b, fl = rp["a"], rp["b"], rp["fl"]
         r, ok = first_result(impl_batch([(".a *%s .b" % flag_text(fl), pair_doc(a, b), False)])[0])
